@@ -114,7 +114,12 @@ def run_history(case, backend):
                 shutil.rmtree(scratch, ignore_errors=True)
         if world.outcome not in ("ok", "budget", "deadlock"):
             raise common.HarnessError(f"scenario failed on {backend}: {world.outcome}: {world.error!r}")
-        meta = {"digest": world.digest([tuple(x[1:]) for x in peer.transcript]), "vtime": world.loop.time() - 1000.0, "events": world.net.seq, "steps": world.loop.steps}
+        import re
+
+        # files on the real filesystem carry the kernel's timestamps (a clock the simulator does
+        # not own): mask the time facts so that the run digest is a function of the seed only
+        mask = re.compile(r"(?i)(modify|create)=\d+")
+        meta = {"digest": world.digest([(k, mask.sub("T", t)) for (_vt, k, t) in peer.transcript]), "vtime": world.loop.time() - 1000.0, "events": world.net.seq, "steps": world.loop.steps}
     return obs, meta
 
 
